@@ -1823,10 +1823,10 @@ func (m *Machine) mapFind(mr MapRef, k Value) int {
 	// a lazily decomposed regexp capture used as a key is a symbolic string
 	k = forceLazy(k)
 	// concrete fast path
-	allConcrete := !isSym(k)
+	allConcrete := !hasSym(k)
 	if allConcrete {
 		for _, kk := range mr.M.Keys {
-			if isSym(kk) {
+			if hasSym(kk) {
 				allConcrete = false
 				break
 			}
@@ -1853,6 +1853,29 @@ func (m *Machine) mapFind(mr MapRef, k Value) int {
 		return -1
 	}
 	return alt
+}
+
+// hasSym: does a (possibly aggregate) key contain a symbolic part?
+func hasSym(v Value) bool {
+	switch x := forceLazy(v).(type) {
+	case *Term:
+		return true
+	case *Struct:
+		for _, f := range x.F {
+			if hasSym(f) {
+				return true
+			}
+		}
+	case *Array:
+		for _, e := range x.E {
+			if hasSym(e) {
+				return true
+			}
+		}
+	case Iface:
+		return x.T != nil && hasSym(x.V)
+	}
+	return false
 }
 
 func (m *Machine) concreteKeyEq(a, b Value) bool {
@@ -1883,6 +1906,13 @@ func (m *Machine) keyEq(a, b Value) Value {
 		var acc Value = true
 		for i := range x.F {
 			acc = m.and(acc, m.keyEq(x.F[i], y.F[i]))
+		}
+		return acc
+	case *Array:
+		y := b.(*Array)
+		var acc Value = true
+		for i := range x.E {
+			acc = m.and(acc, m.keyEq(x.E[i], y.E[i]))
 		}
 		return acc
 	case Pointer:
